@@ -32,9 +32,9 @@ constexpr auto end(T (&array)[N]) noexcept -> T*
 
 /// \ingroup iterator
 template <typename C>
-constexpr auto cend(C const& c) noexcept(noexcept(end(c))) -> decltype(end(c))
+constexpr auto cend(C const& c) noexcept(noexcept(etl::end(c))) -> decltype(etl::end(c))
 {
-    return end(c);
+    return etl::end(c);
 }
 
 } // namespace etl
